@@ -70,7 +70,8 @@ def simple_rule_grammar(rng):
     leafs = []
     for i, s in enumerate(rng.sample(STRS[:5], 2)):
         nm = f'leaf{i}'
-        deco = ['nomemo'] if rng.random() < 0.3 else []
+        # decorators in every combination and order: @nomemo stays @nomemo next to @name / @isname
+        deco = rng.choice([[], [], [], ['nomemo'], ['nomemo'], ['name', 'nomemo'], ['nomemo', 'name'], ['isname', 'nomemo'], ['nomemo', 'isname'], ['name']])
         leafs.append((nm, deco, ('choice', [('tok', s), ('tok', rng.choice(STRS[:5]))])))
     n0, d0, e0 = rules[0]
     alt = ('seq', [('call', 'leaf0'), ('opt', ('call', 'leaf1')), ('rep', False, None, False, ('call', 'leaf0'))])
